@@ -105,9 +105,8 @@ fn c01_asserts(a: &Accepted, env: &Env) -> Vec<(String, String)> {
             ));
         }
     }
-    if owns_vfptr(&a.ty) {
-        v.push(("offset:vftable:0".to_string(), "core::mem::offset_of!(T, vftable) == 0".to_string()));
-    }
+    // (the vftable pointer itself is a generated private field; its presence at offset 0 shows in the
+    // offsets of the declared fields and is C06's subject)
     v
 }
 
